@@ -40,6 +40,7 @@ func runC02(c *Ctx) {
 	c06Lines(c, "C02-R10")
 	c02WholeLines(c)
 	c10ReadConsumes(c, "C02-R10")
+	c02KeyValueSameOrigin(c, "C02-R10")
 	c02DerivedFromContent(c)
 	c02Recursion(c)
 	c02AlwaysEnabledFirst(c)
@@ -1262,7 +1263,16 @@ func c02Recursion(c *Ctx) {
 				case isTree(par.Type()):
 					// (a) the argument is derived from the parameter (or from a range /
 					// type-switch variable derived from it) and is not the parameter itself
-					if !isObj(info, arg, par) && derivedFrom(info, fi, arg, par, 0) {
+					// … through child or parent links only: a yaml `Alias` points sideways (to an anchor
+					// that may be an ancestor), so following it is not a descent and can go round in circles
+					sideways := false
+					ast.Inspect(arg, func(m ast.Node) bool {
+						if sel, isSel := m.(*ast.SelectorExpr); isSel && sel.Sel.Name == "Alias" {
+							sideways = true
+						}
+						return true
+					})
+					if !isObj(info, arg, par) && !sideways && derivedFrom(info, fi, arg, par, 0) {
 						ok = true
 						why = "structural descent on " + paramTypeKey(par.Type())
 					}
@@ -1460,6 +1470,52 @@ func c02ExprTypestate(c *Ctx) {
 		})
 		return found
 	}
+	// the parsed query is taken over only when the decoder reported no error at all: the store
+	// (or the literal field) is dominated by the plain fact err == nil of the DecodeExpr call
+	{
+		var errObj, qObj types.Object
+		ast.Inspect(fi.Decl.Body, func(n ast.Node) bool {
+			if as, ok := n.(*ast.AssignStmt); ok && len(as.Lhs) == 2 && len(as.Rhs) == 1 {
+				if call, ok := as.Rhs[0].(*ast.CallExpr); ok && isCallTo(info, call, "internal/parser.DecodeExpr") {
+					qObj, errObj = objOf(info, as.Lhs[0]), objOf(info, as.Lhs[1])
+				}
+			}
+			return true
+		})
+		if errObj == nil || qObj == nil {
+			c.Undecided("C02-R1", "newPromQLExpr:DecodeExpr result", fi.Decl.Pos(), "no `q, err := DecodeExpr(…)`")
+		} else {
+			errNil := func(a Atom) bool {
+				x, isNil, ok := nilAtom(info, a)
+				return ok && isNil && objOf(info, x) == errObj
+			}
+			nUse, badUse := 0, ""
+			for _, sm := range fl.Find(func(n ast.Node) bool {
+				switch x := n.(type) {
+				case *ast.AssignStmt:
+					for i, l := range x.Lhs {
+						if sel, ok := l.(*ast.SelectorExpr); ok && sel.Sel.Name == "Query" && fieldOwner(info, sel) == "internal/parser.PromQLExpr" && i < len(x.Rhs) && objOf(info, x.Rhs[i]) == qObj {
+							return true
+						}
+					}
+				case *ast.CompositeLit:
+					if typeQName(info.TypeOf(x)) == "internal/parser.PromQLExpr" {
+						if v := litField(x, "Query"); v != nil && objOf(info, v) == qObj {
+							return true
+						}
+					}
+				}
+				return false
+			}) {
+				nUse++
+				if !fl.Dominated(sm.Site, sm.Inner, errNil) {
+					badUse = p.Pos(sm.Inner.Pos())
+				}
+			}
+			c.Check(nUse >= 1 && badUse == "", "C02-R1", "newPromQLExpr:the decoded query is kept only when DecodeExpr returned no error", fi.Decl.Pos(), itoa(nUse)+" use(s) under err == nil",
+				"the result of DecodeExpr is stored as the rule's Query at "+badUse+" on a path where its error is not known to be nil (an error is filtered out, say): the expression then has neither a query nor a syntax error and every check that dereferences Query after testing SyntaxError == nil crashes")
+		}
+	}
 	rets := fl.Find(func(n ast.Node) bool { _, ok := n.(*ast.ReturnStmt); return ok })
 	bad := ""
 	for _, r := range rets {
@@ -1488,4 +1544,35 @@ func c02ExprTypestate(c *Ctx) {
 	}
 	c.Check(len(rets) >= 1 && bad == "", "C02-R1", "newPromQLExpr:every result has a parsed query or a syntax error", fi.Decl.Pos(), itoa(len(rets))+" return(s)",
 		"newPromQLExpr can return at "+bad+" with neither Query nor SyntaxError set: checks that only test SyntaxError == nil dereference the nil query (e.g. an expr that is a single space)")
+}
+
+// c02KeyValueSameOrigin: a YamlKeyValue assembled from parts takes its key and
+// its value from the same entry. A key from one place of the file (the group's
+// `labels:`) with a value from another (the rule's `labels:`) gives line ranges
+// whose first line can lie below the last; LineRange.Expand then panics in the
+// JSON reporter (F41). Shared with C06-R6 (a rule's line range encloses its fields).
+func c02KeyValueSameOrigin(c *Ctx, R string) {
+	p := c.P
+	n := 0
+	for _, fi := range p.AllFuncs() {
+		if fi.Decl.Body == nil || p.IsTestFile(fi.Decl.Pos()) || relPkg(fi.Pkg.PkgPath) != "internal/parser" {
+			continue
+		}
+		info := fi.Pkg.TypesInfo
+		for _, cl := range compositeLits(info, fi.Decl.Body, "internal/parser.YamlKeyValue") {
+			k, v := litField(cl, "Key"), litField(cl, "Value")
+			if k == nil || v == nil {
+				continue
+			}
+			ks, isK := ast.Unparen(k).(*ast.SelectorExpr)
+			vs, isV := ast.Unparen(v).(*ast.SelectorExpr)
+			if !isK || !isV || ks.Sel.Name != "Key" || vs.Sel.Name != "Value" {
+				continue // built from fresh nodes (constructors): nothing to pair
+			}
+			n++
+			c.Check(exprIdentity(info, ks.X) == exprIdentity(info, vs.X), R, fi.Obj.Name()+":key and value of a rebuilt entry come from one entry", cl.Pos(), "same origin",
+				"a YamlKeyValue is assembled from the key of `"+roleStr(info, ks.X)+"` and the value of `"+roleStr(info, vs.X)+"`: the two can lie in any order in the file, so a line range built from them can be reversed and LineRange.Expand panics (JSON reporter) — or a report points at the wrong key")
+		}
+	}
+	c.Ok(R, "YamlKeyValue literals rebuilt from parts enumerated", token.NoPos, itoa(n))
 }
